@@ -215,8 +215,8 @@ func (e *Explorer) newWorld(trace bool) (*vrt.World, *Instance) {
 // until the execution ends or reaches a known state.
 func (e *Explorer) execute(n *node, stack []*node) []*node {
 	e.res.Executions++
+	racesBefore := vrt.RaceErrors() // before the world is built: the root thread's set-up code is judged too
 	w, inst := e.newWorld(false)
-	racesBefore := vrt.RaceErrors()
 	defer func() {
 		w.Teardown()
 		if vrt.RaceBuild && e.res.Violation == nil && vrt.RaceErrors() > racesBefore {
